@@ -611,9 +611,103 @@ func vrRun(seed int64, growth bool, ow, iw *bufio.Writer) (ok bool) {
 	return len(v.bad) == 0
 }
 
+// vrWake: "Trigger wakes a blocked loop", under contention.  Several goroutines hammer Trigger on a private poll running the real
+// Wait loop (that is where the coalescing flag and the eventfd counter can get out of step); after each burst, once every Trigger
+// call has returned and the loop is idle, ONE more Trigger call must cause one more pass of the loop.
+func vrWake(seed int64, ow, iw *bufio.Writer) (ok bool) {
+	head := fmt.Sprintf("real wake seed=%d", seed)
+	fmt.Fprintln(ow, head)
+	ow.Flush()
+	p, err := openDefaultPoll()
+	if err != nil {
+		fmt.Fprintln(iw, "harness-error open: "+err.Error())
+		return false
+	}
+	var passes int64
+	p.Handler = func(events []epollevent) bool {
+		closed := p.handler(events)
+		atomic.AddInt64(&passes, 1)
+		return closed
+	}
+	waitDone := make(chan error, 1)
+	go func() { waitDone <- p.Wait() }()
+	r := rand.New(rand.NewSource(seed))
+	bad := ""
+	idle := func() int64 {
+		last, lastT := atomic.LoadInt64(&passes), time.Now()
+		for time.Since(lastT) < 2*time.Millisecond {
+			time.Sleep(100 * time.Microsecond)
+			if cur := atomic.LoadInt64(&passes); cur != last {
+				last, lastT = cur, time.Now()
+			}
+		}
+		return last
+	}
+	for burst := 0; burst < 6 && bad == ""; burst++ {
+		g := 2 + r.Intn(6)
+		per := 200 + r.Intn(3000)
+		done := make(chan struct{}, g)
+		for k := 0; k < g; k++ {
+			spin := r.Intn(40)
+			go func() {
+				x := 0
+				for j := 0; j < per; j++ {
+					p.Trigger()
+					for q := 0; q < spin; q++ {
+						x += q
+					}
+				}
+				_ = x
+				done <- struct{}{}
+			}()
+		}
+		for k := 0; k < g; k++ {
+			<-done
+		}
+		before := idle()
+		if err := p.Trigger(); err != nil {
+			bad = "trigger-error:" + err.Error()
+			break
+		}
+		dl := time.Now().Add(2 * time.Second)
+		for atomic.LoadInt64(&passes) == before && time.Now().Before(dl) {
+			time.Sleep(100 * time.Microsecond)
+		}
+		if atomic.LoadInt64(&passes) == before {
+			bad = fmt.Sprintf("trigger-did-not-wake-the-blocked-loop(burst=%d,goroutines=%d,flag=%d)", burst, g, atomic.LoadUint32(&p.trigger))
+		}
+	}
+	p.Close()
+	select {
+	case <-waitDone:
+	case <-time.After(2 * time.Second):
+		if bad == "" {
+			bad = "close-did-not-stop-the-loop"
+		} else {
+			// the loop is stuck in epoll_wait for good: release its descriptors ourselves
+			syscall.Close(p.wop.FD)
+			syscall.Close(p.fd)
+		}
+	}
+	if bad == "" {
+		fmt.Fprintln(iw, "ok")
+	} else {
+		fmt.Fprintln(iw, "FAIL:"+bad)
+	}
+	iw.Flush()
+	return bad == ""
+}
+
 func vpRealMain(seed int64, n int, tier string, ow, iw *bufio.Writer, progress *int64) {
 	failed := 0
 	for i := 0; i < n && failed < 2; i++ {
+		if i%4 == 1 {
+			if !vrWake(seed*1000+int64(i), ow, iw) {
+				failed++
+			}
+			atomic.AddInt64(progress, 1)
+			continue
+		}
 		if !vrRun(seed*1000+int64(i), i%8 == 0, ow, iw) {
 			failed++ // two failing rounds are enough to report; a broken loop makes every further round slow
 		}
@@ -624,6 +718,11 @@ func vpRealMain(seed int64, n int, tier string, ow, iw *bufio.Writer, progress *
 func vpRealReplay(line string, ow, iw *bufio.Writer) {
 	var seed int64
 	growth := false
+	if strings.HasPrefix(line, "real wake ") {
+		fmt.Sscanf(line, "real wake seed=%d", &seed)
+		vrWake(seed, ow, iw)
+		return
+	}
 	for _, kv := range strings.Fields(line) {
 		if strings.HasPrefix(kv, "seed=") {
 			seed, _ = strconv.ParseInt(kv[5:], 10, 64)
